@@ -10,6 +10,9 @@ For EVERY interleaving of the atomic map accesses of any number `N` of callers (
   `while` loop before either inserts - the race the loop's comment describes): `overflow_is_reachable`; the excess is
   bounded by the number of concurrent callers, and `solo_exit_then_insert_within_capacity`: an insertion that follows
   its own loop exit without interference ends within the capacity (the next miss repairs the overflow);
+* `victim_picked_whatever_the_length` / `over_eviction_is_reachable` — `len()` and `iter().next()` are separate steps:
+  a victim is removed even if the length has meanwhile dropped below the capacity (the loop comment's "could evict
+  more entries than strictly necessary");
 * `hit_shares_cell` / `miss_makes_new_cell` — a hit returns a handle on the cached statement OBJECT (same metadata
   cell); a miss creates a NEW object whose cell no existing handle or entry has. So result metadata announced through
   one handle is what the next execution through another presents exactly when both came from hits on one entry (or
@@ -124,18 +127,22 @@ theorem bound_apply (cap n : Nat) (prep : String → Except Nat String) (hcap : 
     | loopHead e' =>
       simp only
       split
-      · split
-        · rename_i v _
-          have := countIns_upd st.pc k (.removing e' v.text) n hk
-          simp [hp, isIns] at this; simp only; omega
-        · have := countIns_upd st.pc k (.loopHead e') n hk
-          simp [hp, isIns] at this; simp only; omega
+      · have := countIns_upd st.pc k (.picking e') n hk
+        simp [hp, isIns] at this; simp only; omega
       · rename_i hlt
         have := countIns_upd st.pc k (.inserting e') n hk
         simp [hp, isIns] at this
         have hlt' := countIns_lt_of_not st.pc k n hk (by simp [hp, isIns])
         simp only
         omega
+    | picking e' =>
+      simp only
+      split
+      · rename_i v _
+        have := countIns_upd st.pc k (.removing e' v.text) n hk
+        simp [hp, isIns] at this; simp only; omega
+      · have := countIns_upd st.pc k (.loopHead e') n hk
+        simp [hp, isIns] at this; simp only; omega
     | removing e' v =>
       have := countIns_upd st.pc k (.loopHead e') n hk
       simp [hp, isIns] at this
@@ -179,7 +186,7 @@ theorem solo_exit_then_insert_within_capacity (cap : Nat) (prep : String → Exc
 
 /-- the entry a program counter holds -/
 def held : Pc → Option Entry
-  | .loopHead e | .removing e _ | .inserting e | .done e _ => some e
+  | .loopHead e | .picking e | .removing e _ | .inserting e | .done e _ => some e
   | _ => none
 
 /-- every entry anywhere carries the id the cluster announces for exactly its text, and an existing cell -/
@@ -248,9 +255,13 @@ theorem inv_apply (cap : Nat) (prep : String → Except Nat String) (st : State)
       have he := hp k e (by simp [hk, held])
       simp only
       split
-      · split
-        · exact keep k _ (fun e' h => by simp only [held, Option.some.injEq] at h; subst h; exact he)
-        · exact keep k _ (fun e' h => by simp only [held, Option.some.injEq] at h; subst h; exact he)
+      · exact keep k _ (fun e' h => by simp only [held, Option.some.injEq] at h; subst h; exact he)
+      · exact keep k _ (fun e' h => by simp only [held, Option.some.injEq] at h; subst h; exact he)
+    | picking e =>
+      have he := hp k e (by simp [hk, held])
+      simp only
+      split
+      · exact keep k _ (fun e' h => by simp only [held, Option.some.injEq] at h; subst h; exact he)
       · exact keep k _ (fun e' h => by simp only [held, Option.some.injEq] at h; subst h; exact he)
     | removing e v =>
       have he := hp k e (by simp [hk, held])
@@ -305,6 +316,21 @@ def prep0 : String → Except Nat String := fun t => .ok ("id:" ++ t)
 theorem overflow_is_reachable :
     (run 1 prep0 st0 [.begin 0 "a", .begin 1 "b", .step 0 0, .step 1 0, .step 0 0, .step 1 0,
       .step 0 0, .step 1 0, .step 0 0, .step 1 0]).cache.length = 2 := by decide
+
+/-- OVER-EVICTION: `len()` and `iter().next()` are separate map accesses. A caller that found the cache full picks and
+removes a victim even if another caller has brought the length below the capacity in between -/
+theorem victim_picked_whatever_the_length (cap : Nat) (prep : String → Except Nat String) (st : State) (k c : Nat)
+    (e v : Entry) (hp : st.pc k = .picking e) (hv : st.cache[c % st.cache.length]? = some v) :
+    (step cap prep st k c).pc k = .removing e v.text := by
+  simp [step, hp, hv, upd]
+
+/-- … reachable: capacity 2, cache {x, y}; caller 1 reads the length (2), caller 0 evicts x, caller 1 then picks y
+although only ONE entry is left -/
+theorem over_eviction_is_reachable :
+    let s := run 2 prep0 ⟨[⟨"x", "id:x", 0⟩, ⟨"y", "id:y", 1⟩], fun _ => .idle, 2⟩
+      [.begin 0 "a", .begin 1 "b", .step 0 0, .step 1 0, .step 0 0, .step 1 0, .step 1 0, .step 0 0, .step 0 0, .step 0 0,
+       .step 1 0]
+    s.cache.length = 1 ∧ s.pc 1 = .removing ⟨"b", "id:b", 3⟩ "y" := by decide
 
 /-- two concurrent misses of ONE text: both callers get a handle for "a" with the announced id, with DIFFERENT cells;
 the cache keeps the one inserted last -/
